@@ -449,6 +449,9 @@ impl<'a> Explorer<'a> {
                     x.prop = "C08";
                 }
                 vs.extend(oracle::c08_callbacks(&obs, names_r));
+                if !m.g.contains(&|r| matches!(r, Rx::Return)) {
+                    vs.extend(oracle::c08_half_open(&obs, names_r));
+                }
                 self.tally.record(vs, ek, &input, &script, "");
             }
             if !acc {
